@@ -767,10 +767,14 @@ BAD_KINDS = [
     "slot:0", "slot:3", "slot:-1", "slot:str", "slot:none", "slot:tuple",
     "burst:none", "burst:bytes", "burst:object", "burst:int", "burst:str", "burst:dict", "burst:class",
     "ts:none", "ts:bytes", "tx:none", "tx:int",
-    "obs:add-object", "obs:add-none", "obs:add-class", "obs:remove-absent", "obs:tx-add-none",
+    "obs:add-object", "obs:add-none", "obs:add-class", "obs:remove-absent", "obs:tx-add-none", "obs:remove-present",
     "terminal:id0", "terminal:id-big", "terminal:id-none", "terminal:id-str",
-    "watch:slot7", "watch:none",
+    "watch:slot7", "watch:none", "watch:no-target",
 ]
+# coverage round (neither was executed by any generated history): "obs:remove-present" registers one more observer and removes it again
+# (remove_observer's successful return) - it must never receive a notification afterwards; "watch:no-target" hands the watcher a parseable
+# burst that names no target radio (target id 0, a burst that did not come out of an IP Site Connect frame): the watcher ignores it
+# (returns None, creates no terminal).  Both leave the tracker's state alone and deliver nothing, like every other call of this list.
 # corrupted copies of a valid data / control burst: the colour code is read before the parse fails, so
 # they are only injected directly in front of the burst they were copied from (same slot)
 TWIN_KINDS = ["twin:none", "twin:trunc", "twin:empty", "twin:long", "twin:bytes"]
@@ -778,8 +782,9 @@ TWIN_KINDS = ["twin:none", "twin:trunc", "twin:empty", "twin:long", "twin:bytes"
 TWIN_KINDS_NOASSERT = ["twin:none"]
 
 
-def do_bad_call(term, watch, kind, slot, hexbytes, btype):
-    """perform one rejected call; returns the canonical exception or 'returned'"""
+def do_bad_call(term, watch, kind, slot, hexbytes, btype, info=None):
+    """perform one rejected call; returns the canonical exception or 'returned' ('VIOLATES: ...' when a call that has a stated
+    outcome does something else)"""
     l = L()
     fam, _, var = kind.partition(":")
     burst = l.Burst.from_bytes(bytes.fromhex(hexbytes), burst_type=l.BurstTypes[btype])
@@ -804,13 +809,37 @@ def do_bad_call(term, watch, kind, slot, hexbytes, btype):
                 term.add_observer(l.TransmissionObserverInterface)
             elif var == "tx-add-none":
                 term.timeslots[slot].transmission.add_observer(None)
+            elif var == "remove-present":
+                extra = make_observer(False)
+                had = list(term.observers)
+                r1 = term.add_observer(extra)
+                r2 = term.remove_observer(extra)
+                if info is not None:
+                    info.setdefault("removed_observers", []).append(extra)
+                if r1 is not term or r2 is not term or len(term.observers) != len(had) or any(a is not b for a, b in zip(term.observers, had)):
+                    return "VIOLATES: add_observer / remove_observer of a new observer do not return the terminal or do not restore the observer list"
             else:
                 term.remove_observer(make_observer(False))
         elif fam == "terminal":
             l.Terminal({"id0": 0, "id-big": 1 << 24, "id-none": None, "id-str": "1"}[var], [])
         elif fam == "watch":
             target = watch if watch is not None else term
-            if var == "slot7":
+            if var == "no-target":
+                if watch is None:
+                    from okdmr.dmrlib.transmission.transmission_watcher import TransmissionWatcher
+
+                    watch = TransmissionWatcher(list(term.observers) if term is not None else [])
+                n0 = dict(watch.terminals)
+                burst.target_radio_id = 0
+                if burst.target_radio_id:
+                    # a CSBK / data header names its target itself (Burst.guess_target_radio_id): take a voice-sync burst, which cannot
+                    burst = l.Burst.from_bytes(bytes(13) + bytes.fromhex("07 55 fd 7d f7 5f 70") + bytes(13), burst_type=l.BurstTypes.Vocoder)
+                    burst.target_radio_id = 0
+                burst.timeslot = slot
+                out = watch.process_burst(burst)
+                if out is not None or watch.terminals != n0:
+                    return "VIOLATES: a burst without target radio id is not ignored by the watcher (returned " + type(out).__name__ + f", terminals {sorted(watch.terminals)})"
+            elif var == "slot7":
                 if watch is not None:
                     burst.target_radio_id = 1
                     burst.timeslot = 7
@@ -915,6 +944,7 @@ def run_history(raises, history, watcher=False, ambient=None, flavour=0, info=No
         try:
             return _run_history(raises, history, watcher, flavour, info, counter, lines, outs, fails)
         finally:
+            info.pop("removed_observers", None)
             # how often the code under test wrote (or tried to write) to the standard streams
             info["write_attempts"] = sum(getattr(x, "attempts", 0) for x in streams)
             if isinstance(streams[0], io.StringIO) and not streams[0].closed:
@@ -955,8 +985,10 @@ def _run_history(raises, history, watcher, flavour, info, counter, lines, outs, 
                 _, kind, slot, hexbytes, btype = el
                 before = [len(o.log) for o in observers]
                 st0 = slot_state(term.timeslots[1]) + " / " + slot_state(term.timeslots[2])
-                res = do_bad_call(term, watch, kind, slot, hexbytes, btype)
+                res = do_bad_call(term, watch, kind, slot, hexbytes, btype, info=info)
                 info.setdefault("bad", []).append([kind, res, len(lines) == 1])
+                if res.startswith("VIOLATES"):
+                    fails.append(("error-path-state", f"the call {kind} at step {step}: {res[10:]}", "ignored / restored", res))
                 st1 = slot_state(term.timeslots[1]) + " / " + slot_state(term.timeslots[2])
                 if kind.startswith("twin:"):
                     if res == "returned":
@@ -1057,6 +1089,9 @@ def _run_history(raises, history, watcher, flavour, info, counter, lines, outs, 
             for s in (1, 2):
                 if term.timeslots[s].transmission.type.name == "VoiceTransmission":
                     fails.append(("not-idle-after-end", f"slot {s} still in a voice transmission after end_all_transmissions", "Idle", "VoiceTransmission"))
+        for o in info.pop("removed_observers", []):
+            if o.log:
+                fails.append(("observer-isolation", "an observer that was removed again (remove_observer) still received notifications", [], o.log[:3]))
         lines.append("t.state")
         outs.append(slot_state(term.timeslots[1]) + " / " + slot_state(term.timeslots[2]) + " / " + str(counter.n))
     return lines, outs, fails
